@@ -15,6 +15,7 @@ def check(chk):
                    'and every way back to the loop head refreshes elapsed from the clock; the schema-change future starts False and records the outcome')
     chk.does_not_decide = 'sequences of snapshots; clock behaviour'
     chk.rule('C43.peer', 'peer counted iff known and is_up is not False (folded over is_up in {None, False, True}); rows without version skipped; local version counted')
+    chk.rule('C43.columns', 'the schema-agreement peer queries select every column that identifies a peer (address and port columns, host_id) that the node-list query of the same table selects')
     chk.rule('C43.verdict', '_get_schema_mismatches returns None iff len(versions) == 1, versions keyed by schema version')
     chk.rule('C43.wait', 'return True dominated by `schema_mismatches is None` freshly computed; return False only after loop exit; elapsed refreshed on every path to the loop head')
     chk.rule('C43.result', '_refresh_schema returns True only when agreement was reached and False only when it was not; refresh_schema_and_set_result stores it and always completes the future')
@@ -161,6 +162,42 @@ def check(chk):
     rcls = cl.cls('ResponseFuture')
     dflt = [st for st in rcls.body if isinstance(st, ast.Assign) and src(st.targets[0]) == 'is_schema_agreed']
     chk.judge(len(dflt) == 1 and src(dflt[0].value) == 'True', 'C43.result', rcls, 'non-DDL requests: is_schema_agreed True', 'class default changed')
+
+    # ---- the peer rows of the agreement query must identify the same endpoints as the rows of the node-list query
+    import re
+    cc = cl.cls('ControlConnection')
+    consts = {}
+    for st in cc.body:
+        if isinstance(st, ast.Assign) and isinstance(st.targets[0], ast.Name) and isinstance(st.value, ast.Constant) and isinstance(st.value.value, str) \
+                and st.targets[0].id.startswith('_SELECT_'):
+            consts[st.targets[0].id] = (st, st.value.value)
+
+    def cols(q):
+        m_ = re.match(r'\s*SELECT\s+(.*?)\s+FROM\s+(\S+)', q, re.I | re.S)
+        if not m_:
+            return None, None
+        return [c.strip() for c in m_.group(1).split(',')], m_.group(2)
+    pairs = 0
+    for name, (st, q) in sorted(consts.items()):
+        if 'SCHEMA_PEERS' not in name:
+            continue
+        c_s, table = cols(q)
+        if c_s is None or c_s == ['*']:
+            continue
+        # the node-list query of the same table that names its columns
+        sib = [(n2, cols(q2)[0]) for n2, (_st2, q2) in consts.items() if 'NO_TOKENS' in n2 and cols(q2)[1] == table and cols(q2)[0] not in (None, ['*'])]
+        for n2, c_n in sib:
+            pairs += 1
+            ident = [c for c in c_n if c in ('peer', 'host_id') or 'address' in c or c.endswith('_port') or c.startswith('{')]
+            missing = [c for c in ident if c not in c_s]
+            if '{nt_col_name}' in c_s and 'rpc_address' in missing:
+                # the placeholder is rpc_address on Cassandra and native_transport_address (which get_broadcast_rpc_address prefers) on DSE 6+
+                missing.remove('rpc_address')
+            chk.judge(not missing, 'C43.columns', st, '%s selects the identifying columns of %s (%s)' % (name, n2, ident),
+                      '%s does not select %s: the endpoint built from an agreement row differs from the one the node list knows (default port instead of the advertised one), so an '
+                      'up peer is not found and is ignored - or a down peer is mistaken for another host - and agreement is misreported' % (name, missing))
+    if pairs < 2:
+        raise AnalysisError('C43.columns: schema / node-list peer query pairs not found (%d)' % pairs)
 
 
 def _arm(ret):
